@@ -100,6 +100,21 @@ func Open(options Options) (*DB, error) {
 		}},
 	}
 
+	// 初始化失败时关闭已打开的数据文件并释放文件锁, 否则该目录在进程退出前无法再次打开
+	opened := false
+	defer func() {
+		if opened {
+			return
+		}
+		if db.activeFile != nil {
+			_ = db.activeFile.Close()
+		}
+		for _, file := range db.olderFiles {
+			_ = file.Close()
+		}
+		_ = fileLock.Unlock()
+	}()
+
 	// 尝试加载 merge 临时目录中的数据文件
 	// 当 nonMergeFileId == 0 时可表示 merge 失败, 否则成功
 	nonMergeFileId, err := db.loadMergeFiles()
@@ -161,6 +176,7 @@ func Open(options Options) (*DB, error) {
 		}()
 	}
 
+	opened = true
 	return db, nil
 }
 
